@@ -291,7 +291,7 @@ def corr_match(ck):
     atoms = atom_grid(ck, rng)
     queries = query_grid(ck, rng)
     real_atoms = [a.real() for a in atoms]
-    bt = Batches('c08_match', extra='Definition atoms0 : list latom := ' + lst([a.term() for a in atoms], per_line=1) + '.')
+    bt = Batches('c08_match', extra='Import ListNotations. Open Scope Z_scope. Definition atoms0 : list latom := ' + lst([a.term() for a in atoms], per_line=1) + '.')
     n_true = 0
     for q in queries:
         try:
@@ -304,14 +304,18 @@ def corr_match(ck):
             got = real_match(rq, ra)
             want = ref_match(q, a)
             row.append('E' if got == 'E' else '1' if got else '0')
-            ck.case(('match', q.key(), a.key()), nontrivial=got is True)
-            n_true += got is True
+            if got is True:
+                ck.case(('match', q.key(), a.key()))
+                n_true += 1
+            else:
+                ck.evaluations += 1
             if got != want:
                 ck.counterexample(f'match:{q.kind}:{primitive_of(q)}',
                                   f'{type(rq).__name__}.__eq__ disagrees with the documented conjunction',
                                   {'query': q.key(), 'atom': a.key()}, got, want, 'Python reference of the documented conjunction',
                                   replay_py=replay_match(q, a))
-        bt.add(f'b_match {q.term()} atoms0 {cstr("".join(row))}', (q.key(), ''.join(row)))
+        bt.add(f'b_match_idx {q.term()} atoms0 {lst([i for i, r in enumerate(row) if r == "1"], zraw)} {lst([i for i, r in enumerate(row) if r == "E"], zraw)}',
+               (q.key(), ''.join(row)))
         ck.count(f'match:kind={q.kind}')
     ck.count('match:pairs', len(queries) * len(atoms))
     ck.count('match:true', n_true)
@@ -376,7 +380,7 @@ def corr_bonds(ck):
         bd = Bond(o)
         bd._in_ring = r
         real_bonds.append(bd)
-    bt = Batches('c08_bond', extra='Definition bonds0 : list lbond := ' + lst([f'(mkLB {o} {b(r)})' for o, r in bonds]) + '.')
+    bt = Batches('c08_bond', extra='Import ListNotations. Open Scope Z_scope. Definition bonds0 : list lbond := ' + lst([f'(mkLB {o} {b(r)})' for o, r in bonds]) + '.')
     for k in range(1, 6):
         for sub in itertools.combinations(orders, k):
             for ring in (None, True, False):
@@ -582,8 +586,8 @@ def corr_parse(ck):
     for k in (1, 2):
         prefixes += [''.join(t) for t in itertools.product(BODY_ALPHA, repeat=k)]
     p3 = [''.join(t) for t in itertools.product(BODY_ALPHA, repeat=3)]
-    prefixes += p3 if ck.tier == 'thorough' else rng.sample(p3, 250)
-    p4 = [''.join(rng.choice(BODY_ALPHA) for _ in range(rng.choice([4, 5, 6, 7]))) for _ in range(150 if ck.tier == 'quick' else 3000)]
+    prefixes += p3 if ck.tier == 'thorough' else rng.sample(p3, 120)
+    p4 = [''.join(rng.choice(BODY_ALPHA) for _ in range(rng.choice([4, 5, 6, 7]))) for _ in range(80 if ck.tier == 'quick' else 3000)]
     prefixes += p4
     classes = {}
     bad_inputs = []
@@ -600,7 +604,7 @@ def corr_parse(ck):
             note(x, p_, a_)
         bp.add(f'sw_parse {cstr(pre)} al {cstr(chr(10).join(rp))}', (pre, rp))
         ba.add(f'sw_atom {cstr(pre)} al {cstr(chr(10).join(ra))}', (pre, ra))
-    bodies = gen_bodies(ck, rng, 700 if ck.tier == 'quick' else 7000)
+    bodies = gen_bodies(ck, rng, 500 if ck.tier == 'quick' else 7000)
     for i in range(0, len(bodies), 25):
         part = bodies[i:i + 25]
         rp = [real_parse(x) for x in part]
@@ -641,6 +645,7 @@ def ref_body(body):
         c = m['chg']
         d['chg'] = (1 if c[0] == '+' else -1) * (int(c[1]) if c[-1].isdigit() else len(c))
     seen = set()
+    reject = False
     for p in m['prims'].split(';')[1:]:
         if p == 'a':
             key, val = 'hyb', (4,)
@@ -656,11 +661,13 @@ def ref_body(body):
             val = tuple(sorted(int(x[1:]) for x in p.split(',')))
             lo, hi = {'nb': (0, 14), 'h': (0, 14), 'het': (0, 14), 'hyb': (1, 4), 'rings': (3, 10 ** 9)}[key]
             if len(set(val)) != len(val) or any(v < lo or v > hi for v in val):
-                return None
+                reject = True       # documented ranges: D h x in [0, 14], z in [1, 4], r >= 3, values unique
         if key in seen:
             return None         # the same primitive twice: not defined by the documentation
         seen.add(key)
         d[key] = val
+    if reject:
+        return 'REJECT'
     els = m['el'].split(',')
     nums = []
     for e in els:
@@ -700,7 +707,13 @@ def check_body(ck, body, where):
         report_crash(ck, '[' + body + ']')
         return
     want = ref_body(body)
-    if want is not None:
+    if want == 'REJECT':
+        ck.count(f'{where}:canonical-out-of-range')
+        if not got.startswith('!'):
+            ck.counterexample('smarts-atom-range-accepted', 'a primitive value outside the documented range (or a repeated value) is accepted',
+                              {'smarts': '[' + body + ']'}, got, 'ValueError / IncorrectSmarts', 'documented ranges of the primitives',
+                              replay_py=f"import checks.C08 as c\nprint(c.real_atom({body!r})[0])")
+    elif want is not None:
         ck.count(f'{where}:canonical')
         if got != q_show(want):
             ck.counterexample(f'smarts-atom-denotation:{primitive_of(want)}', "smarts('[body]') does not build the documented query atom",
@@ -799,7 +812,7 @@ def corr_tokens(ck):
     bt = Batches('c08_tok', extra=f'Definition al : string := {cstr(TOK_ALPHA)}.')
     prefixes = [''] + list(TOK_ALPHA) + [''.join(t) for t in itertools.product(TOK_ALPHA, repeat=2)]
     p3 = [''.join(t) for t in itertools.product(TOK_ALPHA, repeat=3)]
-    prefixes += p3 if ck.tier == 'thorough' else rng.sample(p3, 200)
+    prefixes += p3 if ck.tier == 'thorough' else rng.sample(p3, 100)
     prefixes += [''.join(rng.choice(TOK_ALPHA) for _ in range(rng.choice([4, 5, 6, 8]))) for _ in range(100 if ck.tier == 'quick' else 2000)]
     # prefixes that end inside a bond token, so that every one-character continuation of every bond state is seen
     prefixes += ['C' + ''.join(t) for k in (1, 2, 3) for t in itertools.product(BOND_ALPHA, repeat=k)]
@@ -892,6 +905,32 @@ def check_bond_text(ck, t, where):
             pass
         except Exception:
             report_crash(ck, 'C' + t)
+
+
+def check_bond_contexts(ck):
+    """each documented bond spelling after a branch, inside a branch, after a ring-closure digit and on a ring closure"""
+    from chython import smarts
+    docs = [t for t in [''] + [''.join(x) for k in range(1, 7) for x in itertools.product(BOND_ALPHA, repeat=k) if k <= 3 or x[-1] == '@'] if ref_bond(t)]
+    docs = [t for t in docs if t]
+    for t in docs:
+        want = ref_bond(t)
+        for text, n, k in (('C(C)' + t + 'N', 1, 3), ('C(' + t + 'N)C', 1, 2), ('C1' + t + 'NC1', 1, 2), ('N' + t + '1CC1', 1, 3), ('N1CC' + t + '1', 1, 3),
+                           ('[C;D2]' + t + '[N,O]', 1, 2), ('C%12' + t + 'NC%12', 1, 2), ('Cl' + t + 'N', 1, 2)):
+            ck.case(('bond-context', text))
+            try:
+                q = smarts(text)
+                bd = q._bonds[n][k]
+                got = (bd.order, bd.in_ring)
+            except ValueError as e:
+                got = type(e).__name__
+            except Exception:
+                report_crash(ck, text)
+                continue
+            if got != want:
+                ck.counterexample('bond-spelling-denotation', 'a documented bond spelling is rejected or read as other orders / ring mark in context', {'smarts': text},
+                                  got, want, 'regular expression of the documented bond spellings',
+                                  replay_py=f"from chython import smarts\nq=smarts({text!r}); print(list(q.bonds()))")
+    ck.count('bond-context:spellings', len(docs))
 
 
 def corr_bond_spellings(ck):
@@ -1018,7 +1057,7 @@ def check_linear(ck, text, q):
     nums = list(q._atoms)
     for i, (sp, a) in enumerate(zip(atoms, got_atoms)):
         want = ref_body(sp[1:-1] if sp[0] == '[' else sp)
-        if want is not None and show_qatom(a) != q_show(want):
+        if want is not None and want != 'REJECT' and show_qatom(a) != q_show(want):
             ck.counterexample(f'smarts-atom-denotation:{primitive_of(want)}', 'a query atom of a multi-atom SMARTS is not what its spelling denotes',
                               {'smarts': text, 'atom': i}, show_qatom(a), q_show(want), 'independent reader of canonical bracket bodies')
     for i, sp in enumerate(bonds):
@@ -1240,9 +1279,16 @@ def run(ck):
                         'against RDKit attributes. non-trivial = a match / an accepted input')
     proved = common.standard_proof_steps(ck, translators=['smarts', 'tokens', 'elements'])
     tied = True
+    import time
+    timing = {}
     for fn in (corr_match, corr_bonds, corr_labels, corr_parse, corr_tokens, corr_bond_spellings):
+        t0 = time.time()
         tied = fn(ck) and tied
-    search_stream(ck)
-    search_rdkit(ck)
+        timing[fn.__name__] = round(time.time() - t0, 1)
+    for fn in (search_stream, check_bond_contexts, search_rdkit):
+        t0 = time.time()
+        fn(ck)
+        timing[fn.__name__] = round(time.time() - t0, 1)
+    ck.extra['timing_s'] = timing
     ck.extra['proved'] = proved
     ck.extra['tied'] = tied
